@@ -190,6 +190,11 @@ def main(argv):
 
 
 def _exit(code):
+    try:
+        import atexit
+        atexit._run_exitfuncs()  # temp-dir clean-ups registered by the property modules
+    except Exception:
+        pass
     sys.stdout.flush()
     sys.stderr.flush()
     os._exit(code)  # abandoned (hung) daemon threads and children must not keep the check alive
